@@ -15,7 +15,7 @@ META = dict(
 
 def tasks(tier):
     from vf.core import Task
-    return [Task('props.wire:run', name='C16/wire.c16_sizes_at_time', fname='c16_sizes_at_time', timeout=300), Task('props.wire:run', name='C16/wire.c16_integrate_phi', fname='c16_integrate_phi', timeout=300)] + [Task('props.wire:run', name='C16/wire.' + n, fname=n, timeout=300) for n in ('c16_make_nu_func', 'c16_integration_parameters', 'c16_migration_rate', 'c16_apply_event', 'c16_export_names', 'c16_shift_deme_time', 'c16_size_at')] + [Task('props.wire:run', name='C16/wire.admix_phi.%dD' % K, fname='c16_admix_phi', kwargs=dict(K=K), timeout=600) for K in (2, 3, 4, 5)] + [Task('props.wire:run', name='C16/wire.new_pop_events.%dD' % K, fname='c16_new_pop_events', kwargs=dict(K=K), timeout=600) for K in (1, 2, 3, 4)] + [Task('props.wire:run', name='C16/wire.integration_event.%dD' % K, fname='c16_integration_event', kwargs=dict(K=K), timeout=600) for K in (1, 2, 3, 4, 5)] + bounded_tasks('C16', tier)
+    return [Task('props.wire:run', name='C16/wire.c16_sizes_at_time', fname='c16_sizes_at_time', timeout=300), Task('props.wire:run', name='C16/wire.c16_integrate_phi', fname='c16_integrate_phi', timeout=300)] + [Task('props.wire:run', name='C16/wire.' + n, fname=n, timeout=300) for n in ('c16_make_nu_func', 'c16_integration_parameters', 'c16_migration_rate', 'c16_apply_event', 'c16_export_names', 'c16_shift_deme_time', 'c16_size_at', 'c16_check_linear')] + [Task('props.wire:run', name='C16/wire.admix_phi.%dD' % K, fname='c16_admix_phi', kwargs=dict(K=K), timeout=600) for K in (2, 3, 4, 5)] + [Task('props.wire:run', name='C16/wire.new_pop_events.%dD' % K, fname='c16_new_pop_events', kwargs=dict(K=K), timeout=600) for K in (1, 2, 3, 4)] + [Task('props.wire:run', name='C16/wire.integration_event.%dD' % K, fname='c16_integration_event', kwargs=dict(K=K), timeout=600) for K in (1, 2, 3, 4, 5)] + bounded_tasks('C16', tier)
 
 
 MANIFEST_ENTRY = dict(
